@@ -11,14 +11,14 @@ from .core import Infra, log
 
 # which logged-state mismatch categories are an instance of which property
 CATEGORY_PROPS = {
-    "res": ["C02"],
+    "res": ["C02", "C12"],     # (C12: only for RemoveAll / Rename calls, see trace_part)
     "visdom": ["C02", "C12"],
     "viskind": ["C02"],
     "viscontent": ["C02", "C12"],
     "visattr": ["C02"],
     "odd": ["C02"],
     # live rows that no listing from the root reaches (orphans), or listed entries without a live row
-    "tree": ["C13"],
+    "tree": ["C13", "C12"],    # (C12: an entry of a removed / renamed subtree that stays behind as a live row)
     "rowpos": ["C04"],
     "rowarith": ["C04"],
     # a call that failed in the real execution although tape/index moved (derived in run_specs)
@@ -76,6 +76,13 @@ def scripted_specs(prop, seed, tier):
                       [c("Mkdir", ["k0"]), c("Mkdir", ["k0", "k1"]), c("WriteFile", ["k0", "k1", "k3"], ch="c1"), c("Rename", ["k0"], ["k0", "k1", "k2"]),
                        c("Rename", ["k0"], ["k0", "k2"]), c("Rename", ["k0", "k1"], ["k0", "k1", "k2"]), c("MkdirAll", ["k0", "k1", "k2"]),
                        c("Rename", ["k0"], ["k0", "k1", "k2", "k3"]), c("Rename", ["k0", "k1"], ["k2"]), c("Rename", ["k2"], ["k0", "k1"])], 4))
+    # children removed one by one before their parent is removed / renamed / re-created (tombstones below a live directory)
+    scenarios.append(("tombstones", names,
+                      [c("Mkdir", ["k0"]), c("WriteFile", ["k0", "k1"], ch="c1"), c("WriteFile", ["k0", "k2"], ch="c2"), c("Mkdir", ["k0", "k3"]),
+                       c("WriteFile", ["k0", "k3", "k1"], ch="c3"), c("Remove", ["k0", "k1"]), c("Rename", ["k0"], ["k1"]), c("List", ["k1"]),
+                       c("Remove", ["k1", "k2"]), c("RemoveAll", ["k1"]), c("Mkdir", ["k1"]), c("List", ["k1"]), c("Mkdir", ["k0"]),
+                       c("WriteFile", ["k0", "k1"], ch="c2"), c("Remove", ["k0", "k1"]), c("WriteFile", ["k0", "k2"], ch="c1"), c("RemoveAll", ["k0"]),
+                       c("Mkdir", ["k0"]), c("List", ["k0"]), c("Stat", ["k0", "k2"])], 3))
     scenarios.append(("twohandles", names,
                       [c("HOpen", ["k0"], ["h1"], k=14), c("HOpen", ["k0"], ["h2"], k=6), c("HWrite", ["k0"], ["h2"], ch="c1"), c("HClose", ["k0"], ["h2"]),
                        c("HWrite", ["k0"], ["h1"], ch="c2"), c("HClose", ["k0"], ["h1"]), c("HOpen", ["k0"], ["h1"], k=18), c("Chmod", ["k0"], k=1),
